@@ -422,6 +422,12 @@ def cases(tier, seed):
     for names in rt[: (20 if big else 8)]:
         exps = [rnd.choice([-3, -2, -1, 1, 2, 3]) for _ in names]
         out.append(Case("H09.b", f"quantity:{'*'.join(f'{n}^{e}' for n, e in zip(names, exps))}", M, "h_roundtrip_quantity", {"names": names, "exps": exps}, validate=1))
+    # exponents and symbols whose text ends in the digit 1 right before the division sign
+    for names, exps in [(["meter", "second"], [11, -1]), (["meter", "second"], [21, -2]), (["gram", "meter", "second"], [1, 11, -2]), (["reciprocal_centimeter", "second"], [1, -1]), (["meter", "second"], [-11, 1]), (["meter"], [11])]:
+        out.append(Case("H09.b", f"quantity:{'*'.join(f'{n}^{e}' for n, e in zip(names, exps))}", M, "h_roundtrip_quantity", {"names": names, "exps": exps}, validate=1))
+        out.append(Case("H09.b", "other-types:" + "*".join(f"{n}^{e}" for n, e in zip(names, exps)), M, "h_roundtrip_other_types", {"names": names, "exps": exps}, kind="conc"))
+    for names, exps in [(["meter", "second"], [0.1, -1]), (["meter", "second"], [2.1, -1]), (["meter", "second"], [1.01, -2])]:
+        out.append(Case("H09.b", "other-types:" + "*".join(f"{n}^{e}" for n, e in zip(names, exps)), M, "h_roundtrip_other_types", {"names": names, "exps": exps}, kind="conc"))
     sd = [(["meter"], [1]), (["second"], [-1]), (["kelvin", "second"], [-1, -2]), (["newton", "meter"], [1, 1]), (["gram", "second"], [1, -2]), (["kilometer", "hour"], [1, -1])]
     sd += [(nm, [rnd.choice([-2, -1, 1, 2]) for _ in nm]) for nm in rt[4 : (16 if big else 7)]]
     for names, exps in sd:
